@@ -344,6 +344,43 @@ def o_twins(case):
     return labels
 
 
+def _il_table():
+    import json
+    import os
+    with open(os.path.join(os.path.dirname(os.path.dirname(os.path.abspath(__file__))), "gen", "data_bip32_il_zero_prefix.json")) as f:
+        return json.load(f)
+
+
+def cases_il_zero(tier):
+    """(parent key, chain code, child index) whose HMAC-SHA512 output begins with three zero bytes - found by a search over
+    2^27 children and kept in gen/data_bip32_il_zero_prefix.json: I_L is a 232-bit number, its 32-byte form has leading zeros"""
+    for code in ("BTC", "XTN", "LTC"):
+        for k, c, i, _head in _il_table():
+            for private in (1, 0):
+                yield {"net": code, "k": k, "c": c, "i": i, "private": private}
+
+
+def o_il_zero(case):
+    code = case["net"]
+    net = NET(code)
+    vers = versions(code, "bip32")
+    parent = R.Node(case["k"], None, bytes.fromhex(case["c"]), 1, b"\0\0\0\0", 0)
+    private = bool(case["private"])
+    pref = parent if private else parent.public()
+    text = R.text(pref, private, vers[0] if private else vers[1])
+    node = net.parse.bip32(text)
+    want = R.ckd_priv(parent, case["i"])
+    if want is None:
+        return ["skip-invalid-child"]
+    got = node.subkey(case["i"])
+    compare("il-zero-prefix", got, want if private else want.public(), vers, "%s %s parent k=%d child %d (I_L begins 000000)" % (
+        code, "private" if private else "public", case["k"], case["i"]))
+    if private:
+        pub_child = node.public_copy().subkey(case["i"])
+        compare("il-zero-prefix", pub_child, want.public(), vers, "%s public copy of parent k=%d child %d" % (code, case["k"], case["i"]))
+    return ["private" if private else "public"]
+
+
 def s_twins():
     return st.fixed_dictionaries({
         "net": st.sampled_from([p[0] for p in BIP32_PAIRS]), "pair": st.integers(0, 63), "swap": st.booleans(),
@@ -628,6 +665,9 @@ SUBCHECKS = [
              rule="two different keys with equal BIP32 fingerprints (16 pairs of small secret exponents found by enumeration), given the same "
                   "chain code, depth, parent fingerprint and child number, parsed from their xprv / xpub texts; the same 1-3 children are derived "
                   "from one and then from the other: every field of every node equals the reference for its own key"),
+    SubCheck("il_zero_prefix", o_il_zero, cases=cases_il_zero, exhaustive=True, nontrivial=lambda c, l: True,
+             rule="the 7 (parent, child index) pairs of a 2^27-child search whose HMAC-SHA512 output begins with three zero bytes, on BTC / XTN / "
+                  "LTC: the child derived from the private parent, from the parsed public parent and from the public copy equals the reference"),
     SubCheck("range_spellings", o_ranges, strategy=s_ranges, budget=(600, 20000),
              nontrivial=lambda c, l: "dash-range" in l or "comma-list" in l,
              rule="subkeys(range text) with 1-4 components made of items n, lo-hi, comma lists, hardening marks H/p/' on items and "
